@@ -162,3 +162,29 @@ def drop_cutoff(a, nlx, nly):
     if nly % 2 == 0:
         f[..., iy >= nly / 2 - 1e-9, :] = 0
     return np.fft.ifft2(f, axes=(-2, -1)).real
+
+
+_POLLUTED = set()
+
+
+def pollute(nxe, nye, dx=10.0, dy=15.0):
+    """History hygiene for the algebraic checks: before a case uses a padded grid of nxe x nye cells, run one
+    dispersion and one footprint solve whose WHOLE padded grid is an interior filled with large random numbers
+    (halo=0), plus a solve with explicit truncated modes and a shifted tower.  On a library that keeps no state this
+    changes nothing; a reused padded work array, a memoised phase ramp or wavenumber grid keyed too coarsely then
+    carries these numbers into the case and its oracle sees them."""
+    key = (nxe, nye, dx, dy)
+    if key in _POLLUTED:
+        return
+    _POLLUTED.add(key)
+    S = solver()
+    rng = np.random.default_rng(nxe * 1000 + nye)
+    z, prof = build_profiles("mostm_s", 4)
+    q = 1e3 * (rng.standard_normal((nye, nxe)) + 2.0)
+    dom = (nxe * dx, nye * dy)
+    for m in ((nxe + 2 * (nxe % 2 == 0) * 0 + 64, nye + 64), (4, 4) if (nxe % 2 == 0 and nye % 2 == 0) else (64, 64)):
+        try:
+            S(q, z * 1.3, prof, dom, [1, 3], modes=m, halo=0.0, precision="double", srf_bg_conc=7.0, meas_pt=(dx, 2 * dy))
+            S(q, z * 1.3, prof, dom, [1, 3], modes=m, halo=0.0, precision="double", footprint=True, meas_pt=(2 * dx, dy))
+        except Exception:
+            pass  # what is accepted is C11's business
